@@ -192,11 +192,15 @@ CHECKS = {
   note=COMMON_NOTE,
   tech="machine-checked refinement proof in Coq (session model vs abstract ADR/ACK spec) + long-history correspondence + independent reference machine", ref="6 C12"),
  "C13": dict(
-  text="PARTIAL in Coq. Theorems (Props/C13.v): for every legal parameter value the command bytes the SX126x model computes (SetModulationParams, SetRfFrequency, SetPacketParams, SetDioIrqParams per "
+  text="Theorems (Props/C13.v): for every legal parameter value the command bytes the SX126x model computes (SetModulationParams, SetRfFrequency, SetPacketParams, SetDioIrqParams per "
        "radio mode, SetSleep/SetStandby/SetTx/ClearIrqStatus/SetTxContinuousWave/SetBufferBaseAddress/WriteBuffer/CalibrateImage/SetPaConfig, the TxModulation and IQ-polarity erratum values) equal the "
        "datasheet command formats of Spec/PhySpec.v (opcodes, field order, parameter code tables written from the datasheet, compared with the constants REGENERATED from the driver source), and the SX1276 "
-       "read-modify-write results put the commanded codes into the Bw / CodingRate / SF / LowDataRateOptimize fields and keep every other bit, for every prior register byte (sweep). Not proved: the "
-       "order of transactions inside each operation (the hand-written programs of Model/Sx126x.v, Sx127x.v). Tied to the code THREE ways on the same emulated bus: the Coq models against the lora-phy "
+       "read-modify-write results put the commanded codes into the Bw / CodingRate / SF / LowDataRateOptimize fields and keep every other bit, for every prior register byte (sweep). ORDER of transactions (SX126x, C13_sx126x_seq_*, Proofs/PhySeq.v): for every "
+       "parameter value and every byte the chip answers to the reads, the SPI transactions along the success path of set_modulation_params (command, then the TX-modulation workaround "
+       "read/write of 0x0889), set_packet_params (command, IQ-polarity workaround on 0x0736), set_channel, set_tx_power_and_ramp_time (TX-clamp workaround on 0x08D8 for the high-power PA, "
+       "SetPaConfig, SetTxParams), do_rx (StopTimerOnPreamble, SetLoRaSymbNumTimeout [+ 0x0706], RX gain register, SetRx / SetRxDutyCycle), do_cad, the cold-start sequence up to the retention "
+       "list, tx / write_buffer / irq / standby / sleep equal the sequence of datasheet commands the reference driver issues. Not stated for the SX127x, whose reference driver legitimately "
+       "accesses registers in another pattern (compared by register outcome). Tied to the code THREE ways on the same emulated bus: the Coq models against the lora-phy "
        "drivers (pin-level traces, exact), and the drivers against Semtech's reference drivers (SWL2001 C sources through smtc-modem-cores): SX1261/SX1262 transaction by transaction in wire-canonical "
        "form, SX1276 by register outcome on randomised prior register contents, over every LoRaWAN channel frequency + a stride over 137-1020 MHz, every SF x BW x CR, packet parameter grids, sync "
        "words, symbol timeouts, IRQ masks, RX/TX/CAD start, PA/TX parameters, image calibration, status decoding.",
